@@ -92,10 +92,14 @@ impl<'a> Ctx<'a> {
                         self.v_syn_win = if t.has(F_ACK) { None } else { Some(t.win) };
                     }
                     let end = t.seq.wrapping_add(t.seg_len());
+                    let old_snd_max = self.v_snd_max;
                     if seq_lt(self.v_snd_max, end) {
                         self.v_snd_max = end;
                     }
-                    if t.has(F_ACK) && !t.has(F_RST) {
+                    // a keep-alive (one garbage byte before SND.NXT) is discarded by a conformant
+                    // receiver without looking at its ACK number and window
+                    let keepalive = t.payload.len() == 1 && !t.has(F_SYN) && !t.has(F_FIN) && seq_lt(t.seq, old_snd_max) && end == old_snd_max && t.payload[0] == 0;
+                    if t.has(F_ACK) && !t.has(F_RST) && !keepalive {
                         self.v_ack = t.ack;
                         let sh = if t.has(F_SYN) { 0 } else { self.shift() };
                         let e = t.ack.wrapping_add((t.win as u32) << sh);
